@@ -682,7 +682,7 @@ package distributed
 //@            len(unbox(pb, *api.StateBroadcastEvent).SessionMetadatas) == ev_nsess(string(buf)) && off(unbox(pb, *api.StateBroadcastEvent).SessionMetadatas) == 0
 //@         && (forall i int :: {unbox(pb, *api.StateBroadcastEvent).SessionMetadatas[i]} 0 <= i && i < ev_nsess(string(buf)) ==> unbox(pb, *api.StateBroadcastEvent).SessionMetadatas[i] != nil && sm_eq(*unbox(pb, *api.StateBroadcastEvent).SessionMetadatas[i], ev_sess(string(buf), i)))
 //@         && len(unbox(pb, *api.StateBroadcastEvent).Subscriptions) == ev_nsubs(string(buf)) && off(unbox(pb, *api.StateBroadcastEvent).Subscriptions) == 0
-//@         && (forall i int :: {unbox(pb, *api.StateBroadcastEvent).Subscriptions[i]} {ev_sub(string(buf), i)} 0 <= i && i < ev_nsubs(string(buf)) ==> unbox(pb, *api.StateBroadcastEvent).Subscriptions[i] != nil && evsub_is(string(buf), i, *unbox(pb, *api.StateBroadcastEvent).Subscriptions[i]))
+//@         && (forall i int :: {unbox(pb, *api.StateBroadcastEvent).Subscriptions[i]} {ev_sub(string(buf), i)} {ev_sub_pat(string(buf), i)} 0 <= i && i < ev_nsubs(string(buf)) ==> unbox(pb, *api.StateBroadcastEvent).Subscriptions[i] != nil && evsub_is(string(buf), i, *unbox(pb, *api.StateBroadcastEvent).Subscriptions[i]))
 //@         && len(unbox(pb, *api.StateBroadcastEvent).RetainedMessages) == ev_nret(string(buf)) && off(unbox(pb, *api.StateBroadcastEvent).RetainedMessages) == 0
 //@         && (forall i int :: {unbox(pb, *api.StateBroadcastEvent).RetainedMessages[i]} 0 <= i && i < ev_nret(string(buf)) ==> unbox(pb, *api.StateBroadcastEvent).RetainedMessages[i] != nil && evret_is(string(buf), i, *unbox(pb, *api.StateBroadcastEvent).RetainedMessages[i])
 //@               && (unbox(pb, *api.StateBroadcastEvent).RetainedMessages[i].Publish != nil ==> nowild(string(unbox(pb, *api.StateBroadcastEvent).RetainedMessages[i].Publish.Topic)) || true))
